@@ -33,8 +33,18 @@ path = "src/lib.rs"
 unexpected_cfgs = {{ level = "allow", check-cfg = ['cfg(kani)'] }}
 """)
     (d / ".cargo" / "config.toml").write_text("[net]\noffline = true\n")
-    (d / "src" / "lib.rs").write_text(lib_rs)
+    (d / "src" / "lib.rs").write_text(lib_rs + CANARY)
     return d
+
+
+# vacuity guard: this harness must FAIL on every run; if it is missing from the results or verifies, nothing the run reports is trusted
+CANARY = """
+#[cfg(kani)]
+mod verif_canary {
+    #[kani::proof]
+    fn verif_canary_must_fail() { let x: u8 = kani::any(); assert!(x != 3, "verif canary"); }
+}
+"""
 
 
 def run_kani(crate_dir, harness_filter=None, jobs=8, timeout=1800, extra=(), harness_timeout=None):
@@ -55,7 +65,13 @@ def run_kani(crate_dir, harness_filter=None, jobs=8, timeout=1800, extra=(), har
     except subprocess.TimeoutExpired as e:
         out = (e.stdout.decode() if isinstance(e.stdout, bytes) else (e.stdout or "")) + "\n" + (e.stderr.decode() if isinstance(e.stderr, bytes) else (e.stderr or ""))
         timed_out = True
-    return parse_kani(out), out, time.time() - t0, " ".join(cmd), timed_out
+    per = parse_kani(out)
+    if harness_filter is None or "verif_canary_must_fail" in (harness_filter or []):
+        c = per.pop("verif_canary_must_fail", None)
+        if per and not timed_out and (c is None or c["status"] != "FAILED"):
+            out = "VERIF: the canary harness did not fail (" + repr(c and c["status"]) + "): run not trusted\n" + out
+            per = {}
+    return per, out, time.time() - t0, " ".join(cmd), timed_out
 
 
 def parse_kani(out):
